@@ -429,6 +429,41 @@ func fillOutOfDomain(c *Ctx) []Case {
 func suiteC09(c *Ctx) []Suite {
 	return []Suite{
 		{Name: "fill/renames-and-refusals", Gen: fillOutOfDomain},
+		{Name: "fill/many-variables", Gen: func(c *Ctx) []Case {
+			// items with 9 to 40 variables, filled partly, in one and in two steps: what is left
+			// stays in its original order
+			var out []Case
+			for i := 0; i < c.N(150); i++ {
+				names := &nameGen{}
+				k := arrayKinds[c.R.Intn(len(arrayKinds))]
+				n := genArray(c.R, &GenOpt{MaxSlots: 40, PVar: 0.9, names: names}, k.k, k.w)
+				var vars []varRef
+				collectVars(n, &vars)
+				if len(vars) < 9 {
+					continue
+				}
+				asg := map[string]FillVal{}
+				var keys []string
+				for _, v := range vars {
+					if c.R.Intn(3) == 0 {
+						fv := genFillVal(c.R, v.node, 0, nil)
+						asg[v.name] = fv
+						keys = append(keys, v.name)
+					}
+				}
+				c.R.Shuffle(len(keys), func(a, b int) { keys[a], keys[b] = keys[b], keys[a] })
+				tmpl := n
+				if c.R.Intn(2) == 0 {
+					tmpl = &Node{Kind: "L", Slots: []Slot{{Child: n}, {Child: &Node{Kind: "A", Str: []byte("x")}}}}
+				}
+				op := "fillitem " + tmpl.Proto() + " | " + envTokens(asg, keys)
+				if len(keys) > 2 {
+					op = "fillitem " + tmpl.Proto() + " | " + envTokens(asg, keys[:len(keys)/2]) + " | " + envTokens(asg, keys[len(keys)/2:])
+				}
+				out = append(out, Case{Op: op, Decisive: true, Nontrivial: true, Tags: []string{fmt.Sprintf("many-vars:%d", len(vars)/10*10)}}.fields(itemKeys))
+			}
+			return out
+		}},
 		{Name: "fill/substitution-and-composition", Gen: func(c *Ctx) []Case {
 			var out []Case
 			for i := 0; i < c.N(2500); i++ {
@@ -789,6 +824,36 @@ func suiteC10(c *Ctx) []Suite {
 	return []Suite{
 		{Name: "ellipsis/random", Gen: func(c *Ctx) []Case { return mk(c, c.N(3000), 3, 3) }},
 		{Name: "ellipsis/deep-and-large", Gen: func(c *Ctx) []Case { return mk(c, c.N(300), 5, 12) }},
+		{Name: "ellipsis/numbered-in-sml-text", Gen: func(c *Ctx) []Case {
+			// templates written as SML text: the ellipses are numbered in the order in which they
+			// appear, also when one is followed by a list that holds another
+			var out []Case
+			texts := []string{
+				"S1F1 W <L <U1 xa> ... <L <U1 xb> ...>>.",
+				"S1F1 W <L <L <U1 a> ...> <U1 b> ... <L <U1 c> ... <L d ...>> <L e ...>>.",
+				"S1F1 W <L x ... <L y ... <L z ...>>>.",
+			}
+			for i := 0; i < c.N(700); i++ {
+				item := smlTemplate(c.R, 0.6, false)
+				if i%2 == 0 {
+					// an ellipsis in the middle of its list, a list with its own ellipsis behind it
+					k := 0
+					inner := &Node{Kind: "L", Slots: []Slot{{Child: item}, {IsVar: true, Name: "..."}}}
+					if c.R.Intn(2) == 0 {
+						inner = &Node{Kind: "L", Slots: []Slot{{IsVar: true, Name: "tail"}, {IsVar: true, Name: "..."}, {Child: item}}}
+					}
+					item = &Node{Kind: "L", Slots: []Slot{{IsVar: true, Name: "head"}, {IsVar: true, Name: "..."}, {Child: inner}}}
+					normEllipsisNames(item, &k)
+				}
+				t, _ := plainLayout(c.R).render(msgTokens(c.R, genSMLMsg(c.R, item), true))
+				texts = append(texts, t)
+				_ = i
+			}
+			for _, t := range texts {
+				out = append(out, Case{Op: smlOp(t), Decisive: true, Nontrivial: true, Tags: []string{fmt.Sprintf("ellipses-in-text:%d", imin(strings.Count(t, "..."), 4))}}.fields("n str vars err"))
+			}
+			return out
+		}},
 		{Name: "ellipsis/then-fill-generated-names", Gen: func(c *Ctx) []Case {
 			// each generated name can then be filled individually
 			var out []Case
